@@ -287,7 +287,11 @@ def run(R):
     cnt2 = 3000 if R.thorough else 400
     for t in range(cnt2):
         n = R.rng.randint(1, 6)
-        if R.rng.random() < 0.2 and n >= 2:
+        big = (t % 4 == 2)
+        if big:
+            n = R.rng.randint(7, 8)     # more eating steps: the rounding residue of the repeated subtractions grows with the number of agents
+            R.count("eat:7_or_8_agents")
+        if R.rng.random() < 0.2 and n >= 2 and not big:
             P = gslib.rand_profile(R.rng, n, n, 0.3)
             if all(v is None for row in P for v in row):
                 continue
